@@ -14,16 +14,16 @@ def sweep(id, family='R', **kw):
 CHECKS = {
  'C01': dict(
     rule="generated pairs of finite raw values (independent and result-targeted) x {+,-,+=,-=}, 17 inlined call shapes, and generated programs with compile-time constant operands, each evaluated on every build configuration (8 quick / 32 thorough: GCC and Clang, -O0..-O3, c++17/20/2b); non-trivial = the exact result leaves [lowest,max] or lies within 2^17 of the limit; distinctness = 64-bit hash of (clause, arguments)",
-    clauses=[rc('C01.addsub', 4000000, 320000000), rc('C01.shape', 4000000, 320000000), rc('C01.const', 3000000, 240000000, kprog=True)],
+    clauses=[rc('C01.addsub', 4000000, 320000000), rc('C01.shape', 4000000, 320000000), rc('C01.const', 3000000, 240000000, kprog=True), sweep('C01.grid')],
     floors={'C01.addsub': {'overflow': 0.10, 'at-boundary+-3': 0.01}, 'C01.shape': {'overflow': 0.10}, 'C01.const': {'overflow': 0.10}}),
 
  'C02': dict(
     rule="generated (a,b) pairs for fixed*fixed (independent, product-targeted at +-2^63 / +-MAXF*2^16, complementary bit lengths) and (a,n) for every integral type in both operand orders and *=; evaluated on every build configuration; non-trivial = |raw product| >= 2^62 (fixed*fixed) or product out of range / >= 2^56 (scalar)",
-    clauses=[rc('C02.mulff', 4000000, 240000000), rc('C02.mulint', 4000000, 240000000)],
+    clauses=[rc('C02.mulff', 4000000, 240000000), rc('C02.mulint', 4000000, 240000000), sweep('C02.grid')],
     floors={'C02.mulff': {'P-not-in-int64': 0.20, 'P-fits-int64-and>=2^56': 0.10}, 'C02.mulint': {'product-outside-range': 0.10}}),
  'C03': dict(
     rule="generated (a,b) pairs for fixed/fixed (zero and tiny divisors, dividends -k*2^47, the 2^47 limit, quotient-first) and (a,n) for every integral divisor type; non-trivial = |a| >= 2^46, |b| <= 2 raw, |quotient| >= 2^46, or scalar n in {0,+-1} / |n| >= 2^31; a call that does not return is a violation",
-    clauses=[rc('C03.divff', 4000000, 240000000), rc('C03.divint', 4000000, 240000000)],
+    clauses=[rc('C03.divff', 4000000, 240000000), rc('C03.divint', 4000000, 240000000), sweep('C03.grid')],
     floors={'C03.divff': {'zero-divisor': 0.005, '|a|>=2^47': 0.15}, 'C03.divint': {'zero-divisor': 0.02}}),
  'C04': dict(
     rule="every integral type: generated n (type classes and limits) through five conversion spellings, generated finite x through three fixed->T spellings, and an enumeration of all int8/uint8/int16/uint16 values (int32/uint32 strided quick, complete thorough); non-trivial = n out of range or within 2^16 of +-(2^31-1), floor(x) not representable in T or at a limit, negative fractions",
@@ -35,7 +35,7 @@ CHECKS = {
     floors={'C05.f64': {'inexact': 0.30, 'exact-tie': 0.01}, 'C05.f32': {'inexact': 0.10}}),
  'C06': dict(
     rule="pairs of raw values incl. both NaN sentinels (equal, adjacent, mirrored) x six comparisons; single values for isnan / negation / abs; non-trivial = a NaN or +-MAXF operand, |a-b| <= 1, |x| >= 2^62",
-    clauses=[rc('C06.cmp', 6000000, 480000000), rc('C06.unary', 4000000, 320000000)],
+    clauses=[rc('C06.cmp', 6000000, 480000000), rc('C06.unary', 4000000, 320000000), sweep('C06.grid')],
     floors={'C06.cmp': {'NaN-or-limit-operand': 0.10, '|a-b|<=1': 0.10}, 'C06.unary': {'NaN': 0.05}}),
  'C15': dict(
     rule="finite raw x with |x| < 2^47-1, one third integer-valued; floor and ceil compared with the unique values the bracketing inequalities determine, plus ceil(x) == -floor(-x); non-trivial = integer-valued, within 2 raw of an integer, |raw| >= 2^62",
@@ -51,7 +51,7 @@ CHECKS = {
     floors={'C17.laws': {'precondition-true': 0.40}, 'C17.hist': {'model-reaches-NaN': 0.15, 'all-finite': 0.15}}),
  'C18': dict(
     rule="(finite raw x, count in [INT_MIN,63]) for both shifts, a quarter of the cases straddling the range limit; pairs of raw values for &; non-trivial = negative count, count in {0,62,63}, negative x, x*2^r out of range, negative & operand",
-    clauses=[rc('C18.shift', 6000000, 480000000), rc('C18.and', 3000000, 240000000)],
+    clauses=[rc('C18.shift', 6000000, 480000000), rc('C18.and', 3000000, 240000000), sweep('C18.gridshift'), sweep('C18.gridand')],
     floors={'C18.shift': {'negative-count': 0.1, 'shl-out-of-range': 0.1}}),
 
  'C09': dict(
@@ -64,7 +64,7 @@ CHECKS = {
     floors={'C10.rel': {'at-pole': 0.05, 'reduction-executed': 0.15}}),
  'C11': dict(
     rule="atan: exhaustive low range + lattice per bit length to 47 + segment boundaries; generated ordered pairs for monotonicity; generated (y,x) with independent bit lengths for atan2; non-trivial = |x| > 39/16, segment boundaries, |raw| >= 2^29, adjacent pairs, axis cases, |log2|y/x|| > 13",
-    clauses=[sweep('C11.atan'), rc('C11.mono', 10000000, 400000000), rc('C11.atan2', 10000000, 400000000)],
+    clauses=[sweep('C11.atan'), rc('C11.mono', 10000000, 400000000), rc('C11.atan2', 10000000, 400000000), sweep('C11.grid')],
     floors={'C11.atan2': {'axis': 0.05, '|log2|y/x||>13': 0.3}}),
  'C12': dict(
     rule="every raw x in [-1, 1] under both square-root algorithms, plus generated x outside; non-trivial = |x| > 0.6, |x| > 0.99, at the switch, just outside or huge",
@@ -74,7 +74,7 @@ CHECKS = {
     clauses=[sweep('C13.sqrt'), rc('C13.sqrtrc', 5000000, 240000000)], floors={'C13.sqrtrc': {'top-binade[2^46,2^47)': 0.01, 'negative': 0.05}}),
  'C14': dict(
     rule="generated pairs (a,b) below 2^47 with planted normalisation thresholds, under both square-root algorithms; non-trivial = max >= 2^29, min < 2^16, threshold +- 8",
-    clauses=[rc('C14.hypot', 15000000, 640000000)],
+    clauses=[rc('C14.hypot', 15000000, 640000000), sweep('C14.grid')],
     floors={'C14.hypot': {'branch:hi>=2^30(shift-right)': 0.15, 'branch:lo<2^16(shift-left)': 0.15, 'branch:direct': 0.10, 'threshold+-8': 0.03}}),
  'C19': dict(
     rule="all table entries; int32 degrees (generated + enumerated) for the *_angle_aprox functions; sqrt_aprox and atan_index_aprox over exhaustive low ranges, lattices and table-entry neighbourhoods; non-trivial = negative / > 360 degrees, binade edges, large arguments, every table entry",
